@@ -63,3 +63,7 @@ impl VariableIdIterator {
 }
 impl VariableIdRevIterator { pub fn next(&mut self) -> Option<VariableId> { unimplemented!() } }
 
+pub struct FixedPoints { _p: u8 }
+impl FixedPoints {
+    pub fn symbolic(_g: &SymbolicAsyncGraph, _r: &GraphColoredVertices) -> GraphColoredVertices { unimplemented!() }
+}
